@@ -14,6 +14,23 @@ def loop_groups(path):
     return groups
 
 
+def path_subst(path):
+    """atoms fixed by the path condition: `len(X) > 0` false / `X != []` false / `not X` ... => len(X) = 0"""
+    import re
+    sub = {}
+    for c in path.conds:
+        cond, pol = c[0], c[1]
+        m = re.fullmatch(r"len\((.+)\) > 0", cond) or re.fullmatch(r"(.+) != \[\]", cond) or \
+            re.fullmatch(r"len\((.+)\) != 0", cond)
+        if m and pol is False:
+            sub[f"len({m.group(1)})"] = 0
+        m = re.fullmatch(r"len\((.+)\) == 0", cond) or re.fullmatch(r"(.+) == \[\]", cond) or \
+            re.fullmatch(r"not (.+)", cond)
+        if m and pol is True:
+            sub[f"len({m.group(1)})"] = 0
+    return sub
+
+
 def check_fab_writes(ctx, prefix, res, wpath, comps_ok, hdr_fab_ok=None, offsets_list=None, dims_fab=""):
     """res: AccessorResult. wpath: text of the write handle's path. comps_ok(arr, path) -> (bool, text)."""
     fi = res.fi
@@ -54,7 +71,8 @@ def check_fab_writes(ctx, prefix, res, wpath, comps_ok, hdr_fab_ok=None, offsets
             hdr, data = vals
             arr = data.arr
             nb = arr.ncomps() if arr is not None and arr.has_comp_axis else None
-            ok = nb is not None and ip.eq(hdr.ncomp, nb)
+            sub = path_subst(p)
+            ok = nb is not None and ip.eq(Num(hdr.ncomp.r.subs(sub)), Num(nb.r.subs(sub)))
             ctx.check(ok, f"{prefix}.G6", site,
                       f"component count in the written FAB header ({hdr.ncomp.text()}) = components written after it",
                       f"the FAB header announces {hdr.ncomp.text()} components but "
